@@ -31,7 +31,7 @@ def mc(prop, tier):
             [("MC_BitField", "MC_BitField_w4_heavy.cfg", _MUT), ("MC_BitField", "MC_BitField_w8_design.cfg", _MUT)]
     if prop == "C10":
         # CopyDesign = Copy on W = 8 (per-branch coverage) + apply/reset/chunks/unaligned transcriptions on W = 8
-        return [("MC_BitFieldCopy", "MC_BitFieldCopy_w8_mc.cfg", _BR)] if q else \
+        return [("MC_BitFieldCopy", "MC_BitFieldCopy_w8_mc.cfg", _BR), ("MC_BitField", "MC_BitField_w8_design.cfg", _MUT)] if q else \
             [("MC_BitFieldCopy", "MC_BitFieldCopy_w8_mc.cfg", _BR), ("MC_BitField", "MC_BitField_w8_design.cfg", _MUT),
              ("MC_BitField", "MC_BitField_w4_3w.cfg", _MUT)]
     return []
